@@ -456,6 +456,22 @@ pub fn c04(tier: &str, seed: u64) -> i32 {
             let starts: Vec<crate::engine_a::Start> = crate::props_a::empty_start(&mut ctx, &cfg).into_iter().collect();
             crate::props_a::run_closure(&mut ctx, &format!("{} [bytes, {n} buckets] all 7 iterator flavours on every state", a.label), &cfg, starts, 100_000, 30.0);
         }
+        {
+            // keys of about 1000 bytes (two-byte size field in the key record)
+            let a = crate::props_a::Alpha { label: "2 long keys x {8}", colliding: vec![1000, 1500], other: vec![], vals: vec![8] };
+            let mut cfg = crate::props_a::make_cfg("C04", KtId::Bytes, 8, &a, seed);
+            cfg.oracles = crate::engine_a::O_ITER;
+            let starts: Vec<crate::engine_a::Start> = crate::props_a::empty_start(&mut ctx, &cfg).into_iter().collect();
+            crate::props_a::run_closure(&mut ctx, "2 colliding keys of 1000 and 1500 bytes x {8} [bytes]", &cfg, starts, 100_000, 30.0);
+            // string keys that are not valid UTF-8 (the key type accepts any bytes)
+            let a = crate::props_a::Alpha { label: "2 keys x {5,40}", colliding: vec![5], other: vec![5], vals: vec![5, 40] };
+            let mut cfg = crate::props_a::make_cfg("C04", KtId::Str, 1, &a, seed);
+            cfg.keys = vec![vec![0xFF, 0xFE, b'k'], vec![b'a', 0xC3], vec![0xE2, 0x82]];
+            cfg.init_vals = vec![None; 3];
+            cfg.oracles = crate::engine_a::O_ITER;
+            let starts: Vec<crate::engine_a::Start> = crate::props_a::empty_start(&mut ctx, &cfg).into_iter().collect();
+            crate::props_a::run_closure(&mut ctx, "3 string keys that are not valid UTF-8 x {5,40} [string, 1 bucket]", &cfg, starts, 100_000, 30.0);
+        }
         // histories in which key records are relocated and chains re-linked (offsets crossing 16 KiB)
         let specs = vec![
             crate::props_c08::SeedSpec { file: "val", boundary: 16 * 1024, eps: 16, free_slots: 0 },
